@@ -94,7 +94,7 @@ func c10RunCfg(r *core.Run, kind string, n int, o storedrv.Opts, name string, sa
 		d := storedrv.NewDriver(env, rnd, nextID)
 		oo := o
 		oo.Ops = o.Ops/2 + rnd.IntN(o.Ops)
-		d.RunRandom(oo)
+		d.RunRandomGuarded(oo, 30*time.Second)
 		nextID = d.NextID()
 		env.Close()
 		segs = append(segs, core.Segment{Label: fmt.Sprintf("%s-%d", kind, i), Lines: d.Lines()})
